@@ -408,6 +408,12 @@ def run(tier: str, seed: int) -> int:
     accepted = [t for t in withstep if not t["hdr"]["waive"]]
     canary_trace(chk, (accepted or withstep)[0], clean=bool(accepted))
     canary_replay(chk, first, rng)
+    # attribute realignment cell -> layer path (Cell.local_remap, Layer._realign_attribute: named in this property's
+    # mechanism): the PathAlgebra specification, model-checked and replayed on real layers
+    from . import c20 as _c20
+    pa_pool = ThreadPoolExecutor(max_workers=1)
+    _c20.paths_phase(chk, tier, pa_pool.submit(_c20.pa_start, tier))
+    pa_pool.shutdown()
     subcheck.join(chk, mk)
     return chk.finish()
 
